@@ -133,6 +133,7 @@ static cocls::async<void> access_co(G &gen, int style, int arg, Obs &o) {
 
 static int g_next_unstable;  // the object returned by next() answered differently when asked a second time
 static int g_reread_mismatch = 0;
+static int g_value_after_end = 0;
 template <typename G>
 static Obs access_sync(G &gen, int style, int arg) {
     constexpr bool has_arg = !G::arg_is_void;
@@ -155,8 +156,15 @@ static Obs access_sync(G &gen, int style, int arg) {
             if (b) {
                 o.val = gen.value();
                 o.kind = 1;
-            } else
+            } else {
                 o.kind = 2;
+                // the sequence has ended: there is no current item any more (the last one lived in the finished body)
+                try {
+                    (void)gen.value();
+                    g_value_after_end++;
+                } catch (...) {
+                }
+            }
         } else {  // CALL_WAIT
             if constexpr (has_arg) {
                 cocls::future<int> f = gen(arg);
@@ -295,7 +303,9 @@ static void run_case_t(seqx::Runner &R, int with_arg, const std::vector<int> &bs
             if (style == NEXT_VALUE || style == CALL_WAIT) {
                 g_next_unstable = 0;
                 g_reread_mismatch = 0;
+                g_value_after_end = 0;
                 judge(access_sync(*gen, style, arg), cs_names[style]);
+                if (g_value_after_end) R.fail("gen/value-after-end", "next() reported the end of the sequence, yet value() still hands out an item");
                 if (g_reread_mismatch) R.fail("gen/exception-lost-on-reread", "a call delivered the body's exception; value() at that position did not report the same exception");
                 if (g_next_unstable) R.fail("gen/next-result-unstable", "the object returned by next() converted to bool twice gave two different answers (the generator was stepped again)");
             } else {
